@@ -7,4 +7,48 @@ package resolver
 /*@
 // every function of this package is swept for implicit panics that its own guards rule out
 sweep C03
+
+// ================= C04: name rules =================
+// a resolver is bound to its module and panic flag for life
+immutable resolver.Resolver.Module resolver.Resolver.panicMode ast.Module.Ast
+spec wfR(r *Resolver) bool := r != nil && r.Module != nil && r.Module.Ast != nil && r.panicMode != nil && r.CurrentTable != nil
+
+// every error path of the resolver goes through err: the module is marked faulty (and stays so)
+func (*Resolver).err [C04, C07]
+  requires r != nil && r.Module != nil && r.Module.Ast != nil && r.panicMode != nil
+  modifies ast.Ast.Faulty, *bool, parser.parser.errored, g:$deliveredErr
+  ensures r.Module.Ast.Faulty
+  ensures forall a *ast.Ast :: a != r.Module.Ast ==> a.Faulty == old(a.Faulty)
+
+// a name used as a value must be declared, and declared as a variable; then (and only then) it is bound
+func (*Resolver).VisitIdent [C04]
+  requires wfR(r) && expr != nil
+  callsite err requires !exists || !isVar
+  ensures !exists || !isVar ==> r.Module.Ast.Faulty
+  ensures exists && isVar ==> expr.Declaration == decl && r.Module.Ast.Faulty == old(r.Module.Ast.Faulty)
+
+// break / continue only inside a loop
+func (*Resolver).VisitBreakContinueStmt [C04]
+  requires wfR(r) && stmt != nil
+  ensures r.LoopDepth == 0 ==> r.Module.Ast.Faulty
+  ensures r.LoopDepth != 0 ==> r.Module.Ast.Faulty == old(r.Module.Ast.Faulty)
+
+// a declaration whose name already exists in the scope is reported; a non-global public one as well
+func (*Resolver).VisitVarDecl [C04]
+  requires wfR(r) && decl != nil
+  callsite err requires existed || decl.IsPublic
+  ensures existed ==> r.Module.Ast.Faulty
+func (*Resolver).VisitConstDecl [C04]
+  requires wfR(r) && decl != nil
+  callsite err requires existed || decl.IsPublic
+  ensures existed ==> r.Module.Ast.Faulty
+
+// assignment to a plain name: the name must be a declared variable and not a constant
+func (*Resolver).VisitAssignStmt [C04]
+  requires wfR(r) && stmt != nil
+  callsite err requires !exists || !isVar || isConst
+  // LE: the target has been checked, the assigned expression not yet
+  at LE before call visit
+  ensures is[*ast.Ident](old(stmt.Var)) && at(LE, !exists || !isVar || isConst) ==> at(LE, r.Module.Ast.Faulty)
+  ensures is[*ast.Ident](old(stmt.Var)) && at(LE, exists && isVar && !isConst) ==> at(LE, r.Module.Ast.Faulty == old(r.Module.Ast.Faulty))
 @*/
